@@ -66,6 +66,7 @@ type DiffSeams struct {
 	Ctx         context.Context
 	EOFWith     bool // new-build pool readers deliver io.EOF together with the last bytes
 	SigViaFile  bool // the old build's signature is read back from a signature file (build-chain workflow)
+	Twice       bool // WritePatch is called a second time on the same DiffContext (another destination); the result reported is the second one's
 }
 
 // DiffResult is what a diff run produced.
@@ -75,6 +76,7 @@ type DiffResult struct {
 	Err           error
 	Panic         string
 	SourcePool    *Pool
+	SecondDiffers bool // Twice: the second WritePatch wrote other patch bytes than the first
 }
 
 // Recover runs f and converts a panic into a string (value + stack).
@@ -135,6 +137,15 @@ func Diff(oldDir, newDir string, comp *pwr.CompressionSettings, seams DiffSeams)
 	res.Panic = Recover(func() {
 		res.Err = dctx.WritePatch(ctx, pw, sw)
 	})
+	if seams.Twice && res.Err == nil && res.Panic == "" {
+		first := pw.Bytes()
+		pw = &Writer{Name: "patch", Yield: seams.Yield}
+		sw = &Writer{Name: "sig", Yield: seams.Yield}
+		res.Panic = Recover(func() {
+			res.Err = dctx.WritePatch(ctx, pw, sw)
+		})
+		res.SecondDiffers = res.Err == nil && res.Panic == "" && !bytes.Equal(first, pw.Bytes())
+	}
 	res.Patch, res.Sig = pw.Bytes(), sw.Bytes()
 	res.Fresh, res.Reused = dctx.FreshBytes, dctx.ReusedBytes
 	return res
